@@ -290,21 +290,34 @@ partial def pqmodelLoop (h : IO.FS.Stream) (strict : Bool) (sim : Option PQSim) 
       IO.println s!"MISMATCH {prog} line={line} `{l}`: {msg}"
       pqmodelLoop h strict sim true prog line (checked + 1) (mism + 1) progs skipped
 
+structure EngTotals where
+  checked : Nat := 0
+  mism : Nat := 0
+  progs : Nat := 0
+  rsz : Nat := 0        -- `resize-*` lines computed by the model
+  relFailed : Nat := 0  -- of these: compared with the model's state for a failed release transaction
+  adopted : Nat := 0    -- `resize-*` lines after which the snapshot was adopted (failed Open)
+
+def EngTotals.add (t : EngTotals) (st : EngSt) (endOfProgram : Bool) : EngTotals :=
+  { checked := t.checked + st.checked, mism := t.mism + st.mismatches.length,
+    progs := t.progs + (if endOfProgram then 1 else 0), rsz := t.rsz + st.resizesReplayed,
+    relFailed := t.relFailed + st.resizesRelFailed, adopted := t.adopted + st.resizesAdopted }
+
 /-- engine mode: programs are delimited by `program …` / `end` lines -/
-partial def engLoop (h : IO.FS.Stream) (st : EngSt) (prog : String) (checked mism progs : Nat) : IO (Nat × Nat × Nat) := do
+partial def engLoop (h : IO.FS.Stream) (st : EngSt) (prog : String) (t : EngTotals) : IO EngTotals := do
   let line ← h.getLine
-  if line.isEmpty then return (checked + st.checked, mism + st.mismatches.length, progs)
+  if line.isEmpty then return t.add st false
   let l := line.trimAscii.toString
-  if l.startsWith "program " then engLoop h {} l checked mism progs
+  if l.startsWith "program " then engLoop h {} l t
   else if l == "end" then
     for m in st.mismatches.take 3 do
       IO.println s!"MISMATCH {prog}: {m}"
-    engLoop h {} "" (checked + st.checked) (mism + st.mismatches.length) (progs + 1)
-  else if l.isEmpty || l.startsWith "#" then engLoop h st prog checked mism progs
+    engLoop h {} "" (t.add st true)
+  else if l.isEmpty || l.startsWith "#" then engLoop h st prog t
   else
     -- after the first mismatch of a program the states have diverged: stop comparing it
-    if st.mismatches.isEmpty then engLoop h (engStep st l) prog checked mism progs
-    else engLoop h st prog checked mism progs
+    if st.mismatches.isEmpty then engLoop h (engStep st l) prog t
+    else engLoop h st prog t
 
 def main (args : List String) : IO UInt32 := do
   let mode := args.headD "pure"
@@ -339,9 +352,9 @@ def main (args : List String) : IO UInt32 := do
     IO.println s!"DONE checked={checked} mismatches={mism} bad=0"
     return (if mism == 0 then 0 else 1)
   | "engine" =>
-    let (checked, mism, progs) ← engLoop stdin {} "" 0 0 0
-    IO.println s!"DONE checked={checked} mismatches={mism} bad=0 programs={progs}"
-    return (if mism == 0 then 0 else 1)
+    let t ← engLoop stdin {} "" {}
+    IO.println s!"DONE checked={t.checked} mismatches={t.mism} bad=0 programs={t.progs} resizes_replayed={t.rsz} resizes_release_failed={t.relFailed} resizes_adopted={t.adopted}"
+    return (if t.mism == 0 then 0 else 1)
   | _ =>
     IO.eprintln s!"unknown mode {mode}"
     return 2
